@@ -159,6 +159,33 @@ def run(ctx):
             cfg = cfg_of(cfn)
             du = du_of(cfn)
             inloop = [lp for lp in L.loops_of(cfn) if e.block in lp.body]
+            if not inloop and cfn.kind == "Closure" and cfn.parent in F.fns:
+                # idiom: (0..size).map(|id| Worker::new(id, ..)).collect()
+                pfn = F.fns[cfn.parent]
+                pdu = du_of(pfn)
+                maps = [t for _, t in pfn.calls() if (callee_name(t) or "") in ("std::iter::Iterator::map", "std::iter::Iterator::for_each") and cfn.def_ in t.get("fn_items", [])]
+                collected = any((callee_name(t) or "") == "std::iter::Iterator::collect" for _, t in pfn.calls()) or any((callee_name(t) or "") == "std::iter::Iterator::for_each" for t in maps)
+                rng = None
+                for b in pfn.blocks:
+                    for s_ in b["stmts"]:
+                        if s_["k"] == "assign" and s_["rv"]["k"] == "aggregate" and s_["rv"].get("adt") == "std::ops::Range":
+                            rng = s_["rv"]
+                ok_rng = False
+                desc = None
+                if rng is not None:
+                    a, b_ = pdu.val_operand(rng["ops"][0]), pdu.val_operand(rng["ops"][1])
+                    end_is_param = b_[0] == "place" and not b_[1][1] and 1 <= b_[1][0] <= pfn.nargs
+                    written = any(pk[0] == (b_[1][0] if b_[0] == "place" else -1) for _, _, pk, _ in pdu.writes)
+                    ok_rng = a[0] == "const" and a[1] == 0 and end_is_param and not written
+                    desc = {"start": a[1] if a[0] == "const" else str(a)[:40], "end": ("param _%d" % b_[1][0]) if end_is_param else str(b_)[:60]}
+                # the map's receiver is that range
+                recv_is_range = any(t["args"] and "std::ops::Range<usize>" in (t.get("arg_tys") or [""])[0] for t in maps)
+                once = len([1 for _, t in cfn.calls() if callee_name(t) == sp]) == 1 and not L.loops_of(cfn)
+                ok = bool(maps) and collected and ok_rng and recv_is_range and once
+                r2.instance({"constructor": pfn.def_, "idiom": "range.map(closure).collect()", "range": desc, "one_worker_per_element": once}, ok)
+                if not ok:
+                    r2.violate("C07|R2|%s|range" % pfn.def_, "%s does not create exactly one worker per element of 0..size (map/collect idiom: maps=%d collected=%s range=%s)" % (pfn.def_, len(maps), collected, desc), pfn.file, e.line, pfn.def_)
+                continue
             if not inloop:
                 r2.instance({"constructor": e.src, "in_loop": False}, ok=False)
                 r2.violate("C07|R2|%s|not-in-loop" % e.src, "%s creates a worker outside any loop: the pool would not have `size` workers" % e.src, cfn.file, e.line, e.src)
